@@ -161,6 +161,46 @@ def expanded_area(index, rep, fn, rule):
     Ns, t_, e_, k_ = Rat.atom(("Nh",)), Rat.atom(("t",)), Rat.atom(("e",)), Rat.atom(("k",))
     alias = {("c", "INITIAL_HARVEST_DURATION_IN_MONTHS"): Ns, ("c", "RATIO_INCREASED_CROP_AREA"): Rat.const(1) + e_,
              ("c", "NUMBER_YEARS_TAKES_TO_REACH_INCREASED_AREA"): (Ns + t_) / Rat.const(12)}
+    # whole-array form (np.arange / np.clip / array product): evaluated for the generic entry i and compared with the documented ramp
+    from .symx import EIDX, constraints_of, explore, Abort, NArr as _NArr
+    from .rat import piecewise_mismatch
+    g_ = Rat.atom(("grown-i",))
+    i_ = Rat.atom(EIDX)
+
+    def run_generic(itg):
+        itg.path_alias = alias
+
+        def hk(interp, d, a, kw, node):
+            if d in ("np.array", "list") and len(a) == 1 and isinstance(a[0], _NArr):
+                return a[0]
+            return np_hook(interp, d, a, kw, node)
+
+        itg.call_hook = hk
+        o_ = Obj(None, {"NMONTHS": Rat.atom("N"), "KCALS_GROWN": _NArr([(g_, Rat.atom("N"))])}, "self")
+        itg.exec_block([s_ for s_ in fn.body if not (isinstance(s_, ast.Expr) and isinstance(s_.value, ast.Constant))],
+                       {"self": o_, fn.args.args[1].arg: Path(("c",))})
+        return o_
+
+    try:
+        leaves_g = [x for x in explore(run_generic, month_classes=False) if not isinstance(x[2], Abort)]
+    except Unsupported:
+        leaves_g = []
+    gen = []
+    for _, dec, o_, itg in leaves_g:
+        kg = o_.attrs.get("KCALS_GROWN")
+        if isinstance(kg, _NArr) and len(kg.segs) == 1 and itg.to_rat(kg.segs[0][1]) == Rat.atom("N"):
+            gen.append((constraints_of(itg, dec), itg.to_rat(kg.segs[0][0]) / g_))
+    if gen and len(gen) == len(leaves_g):
+        T_ = Ns + t_
+        spec = [(None, Ns, Rat.const(1)), (Ns, T_, Rat.const(1) + (i_ - Ns) * e_ / t_), (T_, None, Rat.const(1) + e_)]
+        why = piecewise_mismatch(gen, spec, EIDX, extra=[(i_, ">="), (t_, ">"), (e_, ">"), (Ns, ">=")], positive=[("t",), ("e",)], nonneg=[("Nh",), EIDX])
+        rep.check(why is None, rule, "expanded area: multiplier starts at >= 1",
+                  f"the cultivated-area multiplier of month i is not 1 until the first harvest, then the linear ramp to RATIO_INCREASED_CROP_AREA reached "
+                  f"after NUMBER_YEARS_TAKES_TO_REACH_INCREASED_AREA years, then that ratio: {why}", loc=loc(OC, fn))
+        rep.check(why is None, rule, "expanded area: stored multiplier >= 1 [whole-array ramp]", f"the ramp is not the documented one: {why}", loc=loc(OC, fn))
+        rep.check(why is None, rule, "expanded area: stored multiplier >= 1 [whole-array plateau]", f"the ramp is not the documented one: {why}", loc=loc(OC, fn))
+        rep.ok(rule, "expanded area: grown[i] multiplied by multiplier[i]", detail="entry i of the grown series x entry i of the multiplier (evaluated)")
+        return
     it = Interp()
     it.path_alias = alias
     it.call_hook = np_hook
